@@ -894,6 +894,53 @@ static std::map<std::string, long> propDecks(vh::Rng& r, vh::PropLog& log, int n
                 (void) R;
             }
         }
+        // ---------------------------------------------------------------- (6) third round: EHYSTR models 0-4 with flag KR / PC / BOTH, per cell
+        {
+            vh::Rng q(sub ^ 0x9999);
+            GenCfg g; g.endscale = q.coin(1, 3); g.hyst = 1; g.allowSmallKr = false; g.consistent = true; g.maxKrModel = 4;
+            DeckSpec d = makeDeck(q, g);
+            for (int c = 10; c < 14; ++c) d.maskD[c] = d.maskI[c] = false;          // no three-point vertical scaling: curves stay within [0, max]
+            static const char* FLAGS[3] = {"KR", "PC", "BOTH"};
+            d.ehystrFlag = FLAGS[q.range(0, 2)];
+            d.curvature = q.coin(1, 3) ? 0.1 : 0.02 + 0.4 * q.unit();
+            DeckSpec dn = d; dn.hyst = false;                                        // the drainage curves alone
+            Built b = build(d, deckText(d)), bn = build(dn, deckText(dn));
+            const std::string cfgTag = "EHYSTR " + std::to_string(d.krModel) + " " + d.ehystrFlag + " ";
+            for (int cell = 0; cell < d.ncell; ++cell) {
+                auto& dp = defaultParams(*b.mgr, cell);
+                const double swl = dp.Swl();
+                std::vector<Sat> h = satHistory(q, 8, q.range(0, 2));
+                double minOw = 2, minGo = 2, minPcOw = 2, minPcGo = 2;
+                auto cl = [](double x) { return std::min(1.0, std::max(0.0, x)); };
+                for (const Sat& s : h) {
+                    const std::string at = cfgTag + tag(cell) + "after " + satStr(s);
+                    b.mgr->updateHysteresis(fluidState(s), cell);
+                    // reversal bookkeeping of both two-phase objects
+                    minOw = std::min(minOw, 1 - cl(s.so)); minGo = std::min(minGo, 1.0 - swl - cl(s.sg));
+                    if (d.ehystrFlag != "KR") { minPcOw = std::min(minPcOw, cl(s.sw)); minPcGo = std::min(minPcGo, cl(s.so)); }
+                    chk(dp.oilWaterParams().krnSwMdc() == minOw && dp.gasOilParams().krnSwMdc() == minGo, "deck.hyst3.minimum.krn", at);
+                    chk(dp.oilWaterParams().pcSwMdc() == minPcOw && dp.gasOilParams().pcSwMdc() == minPcGo, "deck.hyst3.minimum.pc",
+                        at + " ow pcSwMdc " + num(dp.oilWaterParams().pcSwMdc()) + " want " + num(minPcOw) + " go " + num(dp.gasOilParams().pcSwMdc()) + " want " + num(minPcGo));
+                    // idempotent update: the same fluid state again changes nothing
+                    std::vector<Sat> probes = probesFor(q, swl, 3);
+                    std::vector<Vals> before;
+                    for (const Sat& p : probes) before.push_back(evaluate(*b.mgr, cell, p));
+                    const bool again = b.mgr->updateHysteresis(fluidState(s), cell);
+                    bool sameVals = true;
+                    for (size_t k = 0; k < probes.size(); ++k) {
+                        const Vals a = evaluate(*b.mgr, cell, probes[k]);
+                        sameVals = sameVals && hx(a.krw) == hx(before[k].krw) && hx(a.kro) == hx(before[k].kro) && hx(a.krg) == hx(before[k].krg) && hx(a.pcow) == hx(before[k].pcow) && hx(a.pcgo) == hx(before[k].pcgo);
+                    }
+                    chk(!again && sameVals, "deck.hyst3.idempotent-update", at + " second updateHysteresis returned " + std::to_string(again));
+                    // EHYSTR item 5: flag PC leaves the relperms, flag KR the capillary pressures on the drainage curves
+                    for (size_t k = 0; k < probes.size(); ++k) {
+                        const Vals v = evaluate(*bn.mgr, cell, probes[k]);
+                        if (d.ehystrFlag == "PC") chk(before[k].krw == v.krw && before[k].krg == v.krg && (before[k].kro == v.kro || (std::isnan(before[k].kro) && std::isnan(v.kro))), "deck.hyst3.flag-pc", at + " at " + satStr(probes[k]));
+                        if (d.ehystrFlag == "KR") chk(before[k].pcow == v.pcow && before[k].pcgo == v.pcgo, "deck.hyst3.flag-kr", at + " at " + satStr(probes[k]));
+                    }
+                }
+            }
+        }
     }
     return chk.byKey;
 }
